@@ -1719,12 +1719,53 @@ class Interp:
                 raise Unsupported(f"while loop without invariant exceeded {limit} iterations: "
                                   f"{self.src(node.test, fr)}")
 
+    def search_loop(self, node, fr, iterable):
+        """A pure search loop over a symbolic sequence needs no invariant:
+
+            for x in seq:
+                if TEST(x):
+                    <assignments to plain local names>
+                    break
+            [else: ...]
+
+        is `x = first element with TEST` (the model of next() over a generator), followed by the assignments when
+        there is one, the else-block when there is none.  Anything else is not recognised (-> needs an invariant)."""
+        if not isinstance(iterable, SymSeq) or isinstance(node, ast.AsyncFor) or len(node.body) != 1:
+            return False
+        st = node.body[0]
+        if not (isinstance(st, ast.If) and not st.orelse and st.body and isinstance(st.body[-1], ast.Break)):
+            return False
+        for a in st.body[:-1]:
+            if not (isinstance(a, ast.Assign) and all(isinstance(t, ast.Name) for t in a.targets)):
+                return False
+        if any(isinstance(n, (ast.Call, ast.Await, ast.NamedExpr)) and not (
+                isinstance(n, ast.Call) and isinstance(n.func, ast.Attribute) and n.func.attr in ("isnan", "isinf"))
+               for n in ast.walk(st.test)):
+            return False         # the test must be free of effects
+        if not isinstance(node.target, ast.Name):
+            return False
+        gen = ast.GeneratorExp(elt=ast.Name(id=node.target.id, ctx=ast.Load()),
+                               generators=[ast.comprehension(target=node.target, iter=node.iter, ifs=[st.test], is_async=0)])
+        ast.fix_missing_locations(ast.copy_location(gen, node))
+        g = GenExp(gen, fr)
+        g.cached_iter = iterable
+        first = self.engine.fold_symbolic(self, "next", g, {"default": None})
+        isnone = first.isnone if isinstance(first, VOpt) else (first is None)
+        if self.decide(mk(isnone, "bool") if not isinstance(isnone, bool) else isnone, "search loop finds nothing"):
+            self.exec_block(node.orelse, fr)
+            return True
+        self.assign_target(node.target, first.val if isinstance(first, VOpt) else first, fr)
+        self.exec_block(st.body[:-1], fr)
+        return True
+
     def s_For(self, node, fr):
         spec = self.engine.loop_spec(self, node, fr)
         it = self.as_symbolic_iterable(self.eval(node.iter, fr))
         if spec is not None:
             return self.engine.exec_loop_with_invariant(self, node, fr, spec, iterable=it)
         if isinstance(it, (SymSeq, SymSet, SymMap, Stream)) or models.is_symbolic_iterable(self, it):
+            if self.search_loop(node, fr, it):
+                return
             raise Unsupported(f"loop over a symbolic collection needs an invariant: for {self.src(node.target, fr)} in {self.src(node.iter, fr)}")
         items = self.iterate_concrete(it)
         for x in items:
